@@ -573,6 +573,11 @@ fn exec_stmt(w: &Rc<World>, env: &mut Vec<H>, run: &mut Run, s: &Stmt) {
             note_read(w, run, id, v);
             w.sh.borrow_mut().frames.last_mut().unwrap().tracker = t;
         }
+        Stmt::Track(h) if matches!(env[*h], H::ZMemo(..)) => {
+            let (z, id) = match &env[*h] { H::ZMemo(z, _, id) => (*z, *id), _ => unreachable!() };
+            z.track();
+            track_shadow(w, id);
+        }
         Stmt::Track(h) => {
             let (sig, id) = value_handle(env, *h);
             sig.track();
